@@ -78,7 +78,7 @@ ALLSEP = {"outdir": "o_main", "logdir": "o_log", "c_fortran": "o_cf", "python": 
           "yaml": "o_yaml"}
 
 
-def reference_names(workdir, doc, name, argv, has_lua, has_py):
+def reference_names(workdir, doc, name, argv, has_lua, has_py, tolerant=False):
     """Name sets per kind from single-group runs with all directories distinct."""
     ref = {}
     problems = []
@@ -91,7 +91,11 @@ def reference_names(workdir, doc, name, argv, has_lua, has_py):
     for g, flags in groups:
         r, tree, lists = run_case(workdir, "ref_" + g, doc, name, argv, flags, ALLSEP)
         if r.status != "ok":
-            problems.append(("ref-run-failed:" + g, "reference run %s fails: %s" % (g, r.describe())))
+            # a corpus file that keeps wrap_python / wrap_lua off in its own options is not written for that
+            # wrapper (generic.yaml: "Detected assumed-rank dimension"): the language is outside the domain
+            # of that entry; for generated libraries (admission flags) the failure is a violation
+            if not (tolerant and g in ("python", "lua") and not (doc.get("options") or {}).get("wrap_" + g)):
+                problems.append(("ref-run-failed:" + g, "reference run %s fails: %s" % (g, r.describe())))
             ref[g] = None
             continue
         own = {"c": "o_cf", "cf": "o_cf", "python": "o_py", "lua": "o_lua"}[g]
@@ -143,6 +147,11 @@ def judge_case(ref, case, r, tree, lists, twin_tree):
 
     def allow(d, names):
         allowed.setdefault(d, set()).update(names or ())
+    eff = dict(flags)       # languages that are on for the library or for at least one declaration
+    for on in (case.get("switch_on") or {}).values():
+        for l in on:
+            eff[l] = True
+    flags = eff
     if flags["c"]:
         allow(eff_dir(dirs, "c_fortran"), ref["cf"] if flags["fortran"] else ref["c"])
     if flags["python"] and ref.get("python") is not None:
@@ -165,7 +174,7 @@ def judge_case(ref, case, r, tree, lists, twin_tree):
                 problems.append(("wrong-directory:%s" % k, "%s (kind %s) was written into %s, designated: %s" % (
                     f, k, sub, designated(dirs, k))))
     # completeness when nothing is overridden per declaration
-    if not case["overrides"]:
+    if not case["overrides"] and not case.get("switch_on"):
         for d, names in allowed.items():
             for f in sorted(names):
                 if f not in tree.get(d, {}):
@@ -245,42 +254,49 @@ def check_presence(case, ref, tree, model_funcs, language="c++"):
     lang_files["fortran"] = {f: b for f, b in cfd.items() if lex.file_kind(f) == "f"}
     lang_files["python"] = {f: b for f, b in tree.get(eff_dir(dirs, "python"), {}).items() if kind_of(ref, f) == "python"}
     lang_files["lua"] = {f: b for f, b in tree.get(eff_dir(dirs, "lua"), {}).items() if kind_of(ref, f) == "lua"}
+    switch_on = case.get("switch_on") or {}
     for fname, admitted in model_funcs:
         off = case["overrides"].get(fname, [])
+        won = switch_on.get(fname, [])
+        # effective per-declaration state: library level, switched off or switched on for this declaration
+        eon = {l: (flags[l] and l not in off) or (not flags[l] and l in won) for l in ("c", "fortran", "python", "lua")}
         for lang in ("c", "fortran", "python", "lua"):
-            if not flags[lang]:
+            if not admitted.get(lang, True):
                 continue
-            on = lang not in off and admitted.get(lang, True)
-            if lang == "fortran" and lang in off and "c" not in off:
-                # the C wrapper stays on: its bind(C) interface legitimately remains in the
+            how = "wrap_%s: %s on the declaration" % (lang, lang in won) if (lang in off or lang in won) else \
+                "library level wrap_%s: %s" % (lang, flags[lang])
+            if eon[lang]:
+                # (a C library needs no C wrapper for a plain function: nothing to find)
+                if not (lang == "c" and language == "c") and not names_present(lang_files[lang], fname):
+                    problems.append(("declaration-on-but-absent:" + lang,
+                                     "%s is wrapped for %s (%s) but does not occur in the %s output" % (fname, lang, how, lang)))
+            elif not lang_files[lang]:
+                continue
+            elif lang == "fortran" and eon["c"]:
+                # the C wrapper is on: its bind(C) interface legitimately remains in the
                 # module; what must be gone is the Fortran wrapper procedure itself
                 if fname.lower() in fortran_procedures(lang_files[lang]):
                     problems.append(("declaration-off-but-present:fortran-procedure",
-                                     "%s has wrap_fortran: False but module procedure %s exists" % (fname, fname.lower())))
-            elif lang in off:
-                if names_present(lang_files[lang], fname):
-                    problems.append(("declaration-off-but-present:" + lang,
-                                     "%s has wrap_%s: False but occurs in the %s output" % (fname, lang, lang)))
-            elif on and not (lang == "c" and language == "c"):
-                # (a C library needs no C wrapper for a plain function: nothing to find)
-                if not names_present(lang_files[lang], fname):
-                    problems.append(("declaration-on-but-absent:" + lang,
-                                     "%s is wrapped for %s but does not occur in the %s output" % (fname, lang, lang)))
+                                     "%s is not wrapped for Fortran (%s) but module procedure %s exists" % (fname, how, fname.lower())))
+            elif names_present(lang_files[lang], fname):
+                problems.append(("declaration-off-but-present:" + lang,
+                                 "%s is not wrapped for %s (%s) but occurs in the %s output" % (fname, lang, how, lang)))
     return problems
 
 
 def _job(job):
-    name, text, argv, cases, model_funcs = job
+    name, text, argv, cases, model_funcs = job[:5]
+    corpus_entry = bool(job[5]) if len(job) > 5 else False
     doc = meta.load(text)
     out = dict(name=name, runs=0, fails=[], nontrivial=[], samples=[])
     work = tempfile.mkdtemp(prefix="vf15_", dir=core.scratch_root())
     try:
         has_py = True
         has_lua = (doc.get("language", "c++") != "c")
-        ref, problems = reference_names(work, doc, name, argv, has_lua, has_py)
+        ref, problems = reference_names(work, doc, name, argv, has_lua, has_py, tolerant=corpus_entry)
         out["runs"] += 2 + int(has_py) + int(has_lua)
         for key, note in problems:
-            out["fails"].append((key, dict(lib=name, yaml=text, argv=argv, case=None), note))
+            out["fails"].append((key, dict(lib=name, yaml=text, argv=argv, case=None, corpus_entry=corpus_entry), note))
         if ref.get("c") is None or ref.get("cf") is None:
             return out
         for i, case in enumerate(cases):
@@ -288,15 +304,24 @@ def _job(job):
                 case["flags"]["lua"] = False
             if (case["flags"]["python"] and ref.get("python") is None) or (case["flags"]["lua"] and ref.get("lua") is None):
                 continue
+            if case.get("switch_on"):
+                drop = [l for l in ("python", "lua") if ref.get(l) is None]
+                case["switch_on"] = {k: [l for l in v if l not in drop] for k, v in case["switch_on"].items()}
+                case["switch_on"] = {k: v for k, v in case["switch_on"].items() if v}
             d2 = doc
             for fname, off in case["overrides"].items():
                 for path, node, _ in meta.walk_decls(d2):
                     if node.get("decl") and _decl_name(node["decl"]) == fname:
                         d2 = meta.with_options(d2, {"wrap_" + l: False for l in off}, path)
                         break
+            for fname, on in (case.get("switch_on") or {}).items():
+                for path, node, _ in meta.walk_decls(d2):
+                    if node.get("decl") and _decl_name(node["decl"]) == fname:
+                        d2 = meta.with_options(d2, {"wrap_" + l: True for l in on}, path)
+                        break
             r, tree, lists = run_case(work, "case%d" % i, d2, name, argv, case["flags"], case["dirs"])
             out["runs"] += 1
-            cdesc = dict(lib=name, yaml=text, argv=argv, case=case)
+            cdesc = dict(lib=name, yaml=text, argv=argv, case=case, corpus_entry=corpus_entry)
             if r.status != "ok":
                 out["fails"].append(("case-failed", cdesc, "Shroud stops: " + r.describe()))
                 continue
@@ -333,7 +358,7 @@ def _decl_name(decl):
 
 
 @st.composite
-def case_strategy(draw, func_names):
+def case_strategy(draw, func_names, ovl_names=None):
     c = draw(st.booleans())
     flags = dict(c=c, fortran=c and draw(st.booleans()), python=draw(st.booleans()), lua=draw(st.booleans()))
     pool = ["d0", "d1", "d2", "d3", "d4"]
@@ -341,10 +366,21 @@ def case_strategy(draw, func_names):
     for k in KINDS:
         dirs[k] = draw(st.sampled_from(pool + [None, None]))
     overrides = {}
-    if func_names and draw(st.booleans()):
-        for fn in draw(st.lists(st.sampled_from(func_names), max_size=3, unique=True)):
+    switch_on = {}
+    pool_names = list(func_names) + list(ovl_names or [])
+    if pool_names and draw(st.booleans()):
+        for fn in draw(st.lists(st.sampled_from(pool_names), max_size=3, unique=True)):
             overrides[fn] = draw(st.sampled_from([["python"], ["lua"], ["fortran"], ["c", "fortran"], ["python", "lua"]]))
-    return dict(flags=flags, dirs=dirs, overrides=overrides)
+    # one member of an overload set without C/Fortran wrapper (it stays visible to Python / Lua only)
+    if ovl_names and draw(st.booleans()):
+        overrides[draw(st.sampled_from(sorted(ovl_names)))] = draw(st.sampled_from([["c", "fortran"], ["c", "fortran"], ["fortran"], ["python", "lua"]]))
+    # a declaration switched ON for a language that is off at library level (any namespace depth)
+    offl = [l for l in (["c"], ["c", "fortran"], ["python"], ["lua"]) if not flags[l[0]] and not (l == ["c", "fortran"] and flags["c"])]
+    if func_names and offl and draw(st.booleans()):
+        for fn in draw(st.lists(st.sampled_from(func_names), min_size=1, max_size=2, unique=True)):
+            if fn not in overrides:
+                switch_on[fn] = draw(st.sampled_from(offl))
+    return dict(flags=flags, dirs=dirs, overrides=overrides, switch_on=switch_on)
 
 
 def model_function_names(model):
@@ -352,11 +388,12 @@ def model_function_names(model):
     res = []
     seen = {}
     for path, f in smallgen.walk_functions(model):
-        if f["kind"] != "func" or len(path) != 1:
+        if f["kind"] != "func" or not all(isinstance(x, int) for x in path):
             continue
         seen[f["name"]] = seen.get(f["name"], 0) + 1
     for path, f in smallgen.walk_functions(model):
-        if f["kind"] != "func" or len(path) != 1 or seen[f["name"]] != 1:
+        # free functions at library level or inside (nested) namespaces
+        if f["kind"] != "func" or not all(isinstance(x, int) for x in path) or seen[f["name"]] != 1:
             continue
         if f.get("template") or f.get("generic"):
             continue
@@ -365,6 +402,15 @@ def model_function_names(model):
         res.append((f["name"], dict(python=f.get("py", True), lua=f.get("lua", True),
                                     c=f.get("rrow") not in ("RV", "RS3"))))
     return res
+
+
+def overload_names(model):
+    """C++ names shared by several free functions (overload sets)."""
+    seen = {}
+    for path, f in smallgen.walk_functions(model):
+        if f["kind"] == "func" and all(isinstance(x, int) for x in path):
+            seen[f["name"]] = seen.get(f["name"], 0) + 1
+    return sorted(n for n, k in seen.items() if k > 1)
 
 
 def run(ctx):
@@ -376,8 +422,9 @@ def run(ctx):
                 "non-trivial = a mixed flag combination or more than one distinct directory; distinct by (library, case)")
     ctx.assumptions = ["--cfiles is expected to name every C/C++ file (sources and headers) and --ffiles every Fortran "
                        "file present in the C-Fortran directory",
-                       "per-declaration overrides only switch a language off for a free function (Fortran together with or "
-                       "without C), never on against the library level",
+                       "per-declaration overrides switch a language off for a free function or one member of an overload set "
+                       "(Fortran together with or without C), or on against the library level for a free function at any "
+                       "namespace depth (Fortran only together with C)",
                        "presence of a declaration = its C++ name occurs case-insensitively in a comment-free token"]
     jobs = []
     nlib = 24 if quick else 120
@@ -385,16 +432,16 @@ def run(ctx):
     models = smallgen.sample_models(ctx.seed, nlib, with_python=True, with_lua=True)
     for m in models:
         funcs = model_function_names(m)
-        cases = smallgen.sample(case_strategy([f for f, _ in funcs]), ctx.seed + len(jobs), ncase)
+        cases = smallgen.sample(case_strategy([f for f, _ in funcs], overload_names(m)), ctx.seed + len(jobs), ncase)
         jobs.append((m["library"], smallgen.to_yaml(m), [], cases, funcs))
     import random  # deterministic corpus selection from VERIF_SEED
     rnd = random.Random(ctx.seed)
-    ents = [e for e in corpus.entries() if e.name not in ("none",)]
+    ents = [e for e in corpus.entries() if e.name not in ("none",) and not _own_overrides(e.text())]
     if quick:
         ents = rnd.sample(ents, 16)
     for e in ents:
         cases = smallgen.sample(case_strategy([]), ctx.seed + len(jobs), 4 if quick else 10)
-        jobs.append((e.yaml[:-5], e.text(), _strip_wrap_options(e.argv()), cases, []))
+        jobs.append((e.yaml[:-5], e.text(), _strip_wrap_options(e.argv()), cases, [], True))
     for out in core.pool_map(_job, jobs):
         ctx.case(n=out["runs"], label="run")
         for nt in out["nontrivial"]:
@@ -403,6 +450,16 @@ def run(ctx):
             ctx.case(n=0, sample=s)
         for key, case, note in out["fails"]:
             ctx.failure(key, case, expected="see property C15", observed=note, note=note)
+
+
+def _own_overrides(text):
+    """A corpus file that switches a wrapper ON for single declarations itself (wrap.yaml) is not used as a
+    seed: the cases below set library-level flags and overrides themselves and judge against those."""
+    doc = meta.load(text)
+    for path, node, _ in meta.walk_decls(doc):
+        if any(k.startswith("wrap_") and v for k, v in (node.get("options") or {}).items()):
+            return True
+    return False
 
 
 def _strip_wrap_options(argv):
@@ -423,6 +480,6 @@ def replay(ctx, rec):
     c = rec["case"]
     cases = [c["case"]] if c.get("case") else []
     funcs = []
-    out = _job((c["lib"], c["yaml"], c["argv"], cases, funcs))
+    out = _job((c["lib"], c["yaml"], c["argv"], cases, funcs, c.get("corpus_entry", False)))
     for key, case, note in out["fails"]:
         ctx.failure(key, case, observed=note, note=note)
